@@ -286,6 +286,33 @@ class Driver:
                     st['result'] = ('sent',)
                 except asyncio.TimeoutError:
                     st['result'] = ('pending',)
+            elif model in ('stream', 'channel') and spec.get('requester') == 'collector':
+                # the library's own requester-side application: AwaitableRSocket + CollectorSubscriber
+                from rsocket.awaitable.awaitable_rsocket import AwaitableRSocket
+                from types import SimpleNamespace
+                n0 = spec.get('n0', MAX_N)
+                aw = AwaitableRSocket(ep)
+                up_pub = None
+                if model == 'channel' and spec.get('up') is not None:
+                    up_pub = self._publisher(who, iid, DIR_CHANNEL_UP, spec['up'])
+                rec = SimpleNamespace(values=[], log=['on_subscribe'], cancelled=False, requests=None, after_cancel=[],
+                                      subscription=None, who=who + '-collector')
+                st['subscriber'] = rec
+                try:
+                    if model == 'stream':
+                        coro = aw.request_stream(req, limit_rate=n0)
+                    else:
+                        coro = aw.request_channel(req, publisher=up_pub, limit_rate=n0)
+                    values = await asyncio.wait_for(coro, self.horizon)
+                    rec.values = [pkey(v) for v in values]
+                    rec.log += ['on_next'] * len(values) + ['on_complete']
+                    st['result'] = ('done',)
+                except asyncio.TimeoutError:
+                    st['result'] = ('pending',)
+                except Exception as e:
+                    rec.log.append('on_error')
+                    st['result'] = ('done',)
+                    world.log('sub', who=rec.who, iid=iid, dir=DIR_RESPONSE, ev='on_error', err=repr(e)[:80])
             elif model in ('stream', 'channel'):
                 n0 = spec.get('n0', MAX_N)
                 sub = RecSubscriber(world, iid, DIR_RESPONSE, who + '-sub',
@@ -401,6 +428,9 @@ class Pair:
             return True
         if link.framing == 'bytes':
             return all(not p.buf for p in link.pipes.values())
+        if hasattr(link, 'sockets'):
+            return all(q.empty() for q in link.queues.values()) and all(s.inbox.empty() for s in link.sockets.values()) \
+                and all(t._outgoing_frame_queue.empty() for t in link.transports.values())
         return all(q.empty() for q in link.queues.values())
 
     def instrument_queue(self):
